@@ -155,8 +155,8 @@ def run(ctx):
                 okd = nf(c_) in ('(max_splits && (max_splits == ret.size()))', '(max_splits && (ret.size() == max_splits))') and 'npos' in canon(a_) and canon(b_) == 's.find(delim, token_start_offset)'
         ctx.check(okd, R, lab + '|max_splits-stops-search', dv or f, 'when max_splits pieces exist the search is skipped and the rest becomes the last piece', 'max_splits does not stop the *search* (it must not drop or truncate the remainder)')
         pushes = [c for c in walk(body) if c.get('kind') == 'CXXMemberCallExpr' and call_name(c) in ('emplace_back', 'push_back')]
-        tails = [c for c in pushes if canon(call_args(c)[0]) == 's.substr(token_start_offset)']
-        mids = [c for c in pushes if canon(call_args(c)[0]) == 's.substr(token_start_offset, (delim_offset - token_start_offset))']
+        tails = [c for c in pushes if call_args(c) and canon(call_args(c)[0]) == 's.substr(token_start_offset)']
+        mids = [c for c in pushes if call_args(c) and canon(call_args(c)[0]) == 's.substr(token_start_offset, (delim_offset - token_start_offset))']
         okt = len(tails) == 1 and len(mids) == 1
         if okt:
             nxt = [s for s in preceding_statements(tails[0])]
